@@ -58,6 +58,15 @@ Inductive stmt :=
 | SCompound (i : nat) (op : arith) (e : expr)    (* x op= e *)
 | SIf (c : expr) (th : block) (el : els)
 | SReturn (e : expr)
+(* loops: spec.md defines none ("No loops"); these are the forms the analyzer and compiler accept *)
+| SFor (c : expr) (b : block)                    (* for c { b } *)
+| SLoop (b : block)                              (* for { b } *)
+| SRange (i lim : nat) (t : ity) (start : option expr) (stop : expr) (step : option (nat * expr))
+         (b : block)                             (* for x := range([start,] stop [, step]) { b };
+                                                    x is local i, lim / step's nat are the hidden
+                                                    locals __for_limit / __for_step *)
+| SBreak
+| SContinue
 with block := BNil | BCons (s : stmt) (b : block)
 with els :=
 | ElNone                                         (* no else *)
@@ -174,6 +183,22 @@ Section Check.
     | SIf c th el =>
         if cond_ok sc c && check_block sc th && check_els sc el then Some sc else None
     | SReturn e => if expr_ok sc e ret then Some sc else None
+    | SFor c b => if cond_ok sc c && check_block sc b then Some sc else None
+    | SLoop b => if check_block sc b then Some sc else None
+    | SRange i lim t start stop step b =>
+        let fresh j := Nat.leb nparams j && negb (existsb (Nat.eqb j) sc)
+                       && match nth_error tys j with Some t' => ty_eqb (TI t) t' | None => false end in
+        if fresh i && fresh lim && negb (Nat.eqb i lim) && negb (bits t <? 32)%Z
+           && match start with Some e => expr_ok sc e (TI t) | None => true end
+           && expr_ok sc stop (TI t)
+           && match step with
+              | Some (j, e) => fresh j && negb (Nat.eqb j i) && negb (Nat.eqb j lim) && expr_ok sc e (TI t)
+                               && match start with Some _ => true | None => false end
+              | None => true
+              end
+           && check_block (i :: sc) b
+        then Some sc else None
+    | SBreak | SContinue => Some sc
     end
   with check_block (sc : list nat) (b : block) : bool :=
     match b with
@@ -193,7 +218,7 @@ Fixpoint returns_stmt (s : stmt) : bool :=
   match s with
   | SReturn _ => true
   | SIf _ th el => returns_block th && returns_els el
-  | _ => false
+  | _ => false        (* a loop never counts as returning *)
   end
 with returns_block (b : block) : bool :=
   match b with
@@ -205,6 +230,22 @@ with returns_els (el : els) : bool :=
   | ElNone => false
   | ElElse b => returns_block b
   | ElElif _ th el' => returns_block th && returns_els el'
+  end.
+
+(* no loop, break or continue anywhere *)
+Fixpoint loop_free_stmt (s : stmt) : bool :=
+  match s with
+  | SDecl _ _ _ | SAssign _ _ | SCompound _ _ _ | SReturn _ => true
+  | SIf _ th el => loop_free_block th && loop_free_els el
+  | SFor _ _ | SLoop _ | SRange _ _ _ _ _ _ _ | SBreak | SContinue => false
+  end
+with loop_free_block (b : block) : bool :=
+  match b with BNil => true | BCons s r => loop_free_stmt s && loop_free_block r end
+with loop_free_els (el : els) : bool :=
+  match el with
+  | ElNone => true
+  | ElElse b => loop_free_block b
+  | ElElif _ th el' => loop_free_block th && loop_free_els el'
   end.
 
 Definition check_func (f : func) : bool :=
